@@ -232,6 +232,25 @@ class _Child(object):
             st["workers_alive"] = sum(1 for w in list(srv.workers) if w.is_alive())
             st["polling_alive"] = srv.polling_thread.is_alive()
         st["yield_injections"] = globals().get("_YIELD_COUNTER", [0])[0]
+        if hasattr(srv, "fd_to_conn"):
+            # thread pool: requests that arrived on a connection the server still tracks but has not read yet
+            import fcntl
+            import termios
+            pending = {}
+            for fd in list(srv.fd_to_conn):
+                try:
+                    buf = bytearray(4)
+                    fcntl.ioctl(fd, termios.FIONREAD, buf)
+                    n = int.from_bytes(bytes(buf), sys.byteorder)
+                    if n:
+                        pending[str(fd)] = n
+                except OSError:
+                    pass
+            st["pending_unread"] = pending
+            try:
+                st["active_queue"] = srv._active_connection_queue.qsize()
+            except Exception:
+                st["active_queue"] = None
         return st
 
     def do_close(self):
@@ -408,6 +427,7 @@ def _install_yield_injection():
     counter = [0]
 
     slow_codes = set()
+    medium_codes = set()
 
     def on_line(code, line):
         counter[0] += 1
@@ -415,6 +435,12 @@ def _install_yield_injection():
         if code in slow_codes:           # shutting a server down is not time critical: give the other threads real time
             if r < 0.6:
                 time.sleep(0.002)
+            return
+        if code in medium_codes:         # descriptor hand-over points of the thread pool: windows of a few milliseconds
+            if r < 0.2:
+                time.sleep(0.003)
+            elif r < 0.5:
+                time.sleep(0)
             return
         if r < 0.25:
             time.sleep(0)
@@ -426,6 +452,7 @@ def _install_yield_injection():
              srv.ThreadPoolServer._serve_requests, srv.ThreadPoolServer._drop_connection, srv.ThreadPoolServer._handle_poll_result,
              service.Service.__dict__["_connect"].func, protocol.Connection.__init__]
     slow_codes.update((srv.Server.close.__code__, srv.ThreadPoolServer.close.__code__))
+    medium_codes.update((srv.ThreadPoolServer._serve_requests.__code__, srv.ThreadPoolServer._drop_connection.__code__))
     for f in funcs:
         code = getattr(f, "__code__", None)
         if code is not None:
